@@ -175,6 +175,20 @@ func failFast(w *World, r *Report, ro *Roles, rule string) {
 		for _, e := range p.Effects {
 			if e.Kind == "call" && e.Callee == ro.CancelInt {
 				cancels = e.Val
+				// the id (or the job looked up by it) seen through a helper that extracts it from the task's variables
+				if cc := callCommonOf(e.In); cc != nil && len(cc.Args) > 0 {
+					a := w.Resolve(cc.Args[len(cc.Args)-1])
+					if ex, ok := a.(*ssa.Extract); ok {
+						if lk, ok := w.Resolve(ex.Tuple).(*ssa.Lookup); ok {
+							a = w.Resolve(lk.Index)
+						}
+					} else if lk, ok := a.(*ssa.Lookup); ok {
+						a = w.Resolve(lk.Index)
+					}
+					if deep := w.APThrough(a); deep != w.AP(a) {
+						cancels += " = " + deep
+					}
+				}
 			}
 		}
 		want := errored != nil && *errored && found != nil && *found && cont != nil && !*cont
